@@ -234,6 +234,8 @@ def main(argv=None):
             "samples": samples[:12],
             "bounded": bounded_info,
             "cover_checks": sum(1 for r in results for ob in r.obligations if ob.kind == "cover"),
+            "disagreements_checked": sum(1 for r in results for ob in r.obligations
+                                         if len([a for a in (ob.meta.get("tried") or []) if a[1] in ("sat", "unsat")]) >= 2),
             "cover_undecided": [ob.name for r in results for ob in r.obligations if ob.kind == "cover" and ob.verdict == "undecided"][:20],
             "known_findings": [{"obligation": k["obligation"], "instances": len(obs)} for k, obs in seen_known.values()],
             "violations": viol_records,
